@@ -27,6 +27,7 @@ Bad(e) ==
          \cup T(Len(e.out) # Len(e.cands), "C09.comparator")
     [] e.ev = "Build" ->
          IF e.panic THEN {"C09.panic"}
+         ELSE IF e.mutated THEN {"C09.request_mutated"}   \* Build wrote into the caller's candidate array
          ELSE LET exp == Expected(e.cands, e.origin, e.proto, EnvCan(e), EnvN(e), e.empty, e.ucs2can)
                   got == IF e.err THEN -1 ELSE e.coding
               IN IF got = exp THEN T(~e.err /\ e.nparts # EnvN(e)[got] /\ got \in Valid(e.proto)
